@@ -1701,3 +1701,8 @@ mod tests {
         );
     }
 }
+
+// verification hook (guard: cfg(kani)); contract harnesses live outside the repository
+#[cfg(kani)]
+#[path = "/verif/kani/ntp_proto/server.rs"]
+mod verif;
